@@ -447,6 +447,76 @@ class Importer(Stream):
 
 
 
+class ImporterHistory(Stream):
+    """ONE long-lived ASTToPymbolic for a whole family of strings, each Python AST a TEMPORARY
+    (parsed inside the call, dropped afterwards, `gc.collect()` every few members): the importer's
+    answer for a string must not depend on what the same instance imported earlier.  Judged
+    against the same independent reading (`expected`: CPython's own parse) as `ast-importer`, and
+    only where a FRESH importer gets that string right (its own deviations are `ast-importer`'s
+    business).  Oracle only."""
+    name = "ast-importer-history"
+    has_model = False
+
+    def cases(self, rng, tier):
+        fams = 12 if tier == "quick" else 150
+        for _ in range(fams):
+            nops = rng.randint(1, 3)
+            texts = []
+            # same operator count => same number and sizes of AST nodes: the freed blocks of one
+            # member are what the next member's nodes are allocated in
+            for _ in range(rng.randint(25, 45)):
+                texts.append(rand_string(rng, nops))
+            yield {"texts": texts, "gc_every": rng.choice([1, 2, 5])}
+        # every two-operator skeleton, in order, through one importer
+        yield {"texts": [s for s, _k in skeletons2()], "gc_every": 1}
+
+    def run_impl(self, pl):
+        return "(oracle-only)"
+
+    @staticmethod
+    def _import(importer, s):
+        # the AST is referenced by this frame's evaluation stack only
+        try:
+            return norm_neg(flatten_assoc(importer(ast.parse(s, mode="eval").body)))
+        except RecursionError:
+            raise
+        except Exception as ex:
+            return ("raises", type(ex).__name__)
+
+    def oracle(self, pl):
+        import gc
+        from pymbolic.interop.ast import ASTToPymbolic
+        importer = ASTToPymbolic()
+        for i, s in enumerate(pl["texts"]):
+            try:
+                want = norm_neg(expected(s))
+            except (SyntaxError, NotShared):
+                continue
+            got = self._import(importer, s)
+            if got != want:
+                fresh = self._import(ASTToPymbolic(), s)
+                if fresh == want:
+                    return Failure("importer-depends-on-history",
+                                   f"one ASTToPymbolic instance, string #{i} {s!r} after "
+                                   f"{pl['texts'][:i][-3:]!r}: {got!r}, a fresh importer gives "
+                                   f"{fresh!r}", pl)
+            del got
+            if i % pl.get("gc_every", 1) == 0:
+                gc.collect()
+        return None
+
+    def shrink(self, pl):
+        t = pl["texts"]
+        if len(t) > 2:
+            yield {"texts": t[len(t) // 2:], "gc_every": pl.get("gc_every", 1)}
+            yield {"texts": t[:len(t) // 2 + 1], "gc_every": pl.get("gc_every", 1)}
+            for i in range(len(t)):
+                yield {"texts": t[:i] + t[i + 1:], "gc_every": pl.get("gc_every", 1)}
+
+    def nontrivial_key(self, pl, model, impl):
+        return "|".join(pl["texts"][:3])
+
+
 # {{{ strings through the lexer MODEL (PV/Model/Lexer.lean)
 
 class SkeletonStrings(Skeletons):
@@ -1094,7 +1164,7 @@ PROP = Prop(
     title="The parser reads the syntax it shares with Python the way Python does",
     lean_targets=["PV.Properties.C07"],
     extractors=[extract],
-    streams=[Skeletons(), Importer(), SkeletonStrings(), LexShared()],
+    streams=[Skeletons(), Importer(), ImporterHistory(), SkeletonStrings(), LexShared()],
     probes=[probe_true_prefix],
     trusted_base=["Lean 4.33 kernel; axioms propext, Classical.choice, Quot.sound only",
                   "CPython's ast.parse is the reference for Python's grouping (harness/props/c07.py: py_tree)",
